@@ -28,7 +28,7 @@ import jax.numpy as jnp  # noqa: E402
 from jax import lax  # noqa: E402
 
 from . import symcore as sc  # noqa: E402
-from .symcore import SB, SC, SR  # noqa: E402
+from .symcore import SB, SC, SI, SR  # noqa: E402
 
 
 class NotEncodable(sc.HarnessError):
@@ -111,7 +111,7 @@ def _b(x):
     """truth value as z3 Bool term or python bool"""
     if isinstance(x, SB):
         return x
-    if isinstance(x, SR):
+    if isinstance(x, (SR, SI)):
         return x != 0
     return bool(x)
 
@@ -154,6 +154,8 @@ def _isinf(v, sign):
 
 
 def _smax(a, b):
+    if isinstance(a, SI) or isinstance(b, SI):
+        return (a if isinstance(a, SI) else SI(a)).maximum(b)
     if isinstance(a, (SR,)) or isinstance(b, (SR,)):
         if _isinf(a, -1):
             return b
@@ -164,6 +166,8 @@ def _smax(a, b):
 
 
 def _smin(a, b):
+    if isinstance(a, SI) or isinstance(b, SI):
+        return (a if isinstance(a, SI) else SI(a)).minimum(b)
     if isinstance(a, (SR,)) or isinstance(b, (SR,)):
         if _isinf(a, +1):
             return b
@@ -178,7 +182,7 @@ def _sabs(a):
 
 
 def _ssign(a):
-    if isinstance(a, SR):
+    if isinstance(a, (SR, SI)):
         return a.sign()
     return (a > 0) - (a < 0)
 
@@ -288,8 +292,40 @@ class Interp:
 
     def p_div(self, ins, params, eqn):
         if np.issubdtype(eqn.outvars[0].aval.dtype, np.integer):
-            raise NotEncodable("integer division on symbolic values")
+            # XLA integer division truncates toward zero
+            def tdiv(a, b):
+                a = a if isinstance(a, SI) else SI(a)
+                return a.trunc_div(b)
+            return self._bin(np.frompyfunc(tdiv, 2, 1), ins)
         return self._bin(lambda a, b: a / b, ins)
+
+    def p_rem(self, ins, params, eqn):
+        if not np.issubdtype(eqn.outvars[0].aval.dtype, np.integer):
+            raise NotEncodable("floating-point remainder of symbolic values")
+
+        def trem(a, b):
+            a = a if isinstance(a, SI) else SI(a)
+            return a.trunc_rem(b)
+        return self._bin(np.frompyfunc(trem, 2, 1), ins)
+
+    def p_round(self, ins, params, eqn):
+        """round to nearest: fresh integer r with |x - r| <= 1/2 (the tie-breaking rule is left open)"""
+        def rnd(v):
+            if not isinstance(v, (SR, SI)):
+                return float(np.rint(v))
+            if isinstance(v, SI):
+                return v
+            c = sc.cur()
+            r = c.fresh("rnd", sort="int")
+            import z3
+            rr = z3.ToReal(r)
+            n, d = v.n, v.d
+            if d is None:
+                c.pc.append(z3.And(rr - z3.Q(1, 2) <= n, n <= rr + z3.Q(1, 2)))
+            else:
+                c.pc.append(z3.And(rr - z3.Q(1, 2) <= n / d, n / d <= rr + z3.Q(1, 2)))
+            return SR(rr)
+        return [np.asarray(np.frompyfunc(rnd, 1, 1)(_asobj(ins[0])), dtype=object)]
 
     def p_neg(self, ins, params, eqn):
         return [np.asarray(-_asobj(ins[0]), dtype=object)]
@@ -387,7 +423,7 @@ class Interp:
         x = _asobj(ins[0])
         if np.issubdtype(new, np.inexact):
             def cv(v):
-                if isinstance(v, SB):
+                if isinstance(v, (SB, SI)):
                     return sc._lift(v)
                 if isinstance(v, SC) and not np.issubdtype(new, np.complexfloating):
                     return v.real
@@ -397,10 +433,15 @@ class Interp:
             return [np.asarray(np.frompyfunc(lambda v: v if isinstance(v, SB) else (sc._lift(v) != 0), 1, 1)(x), dtype=object)]
         if np.issubdtype(new, np.integer):
             def ci(v):
+                import z3
                 if isinstance(v, SB):
-                    return sc._lift(v)          # 0/1
-                if isinstance(v, SR) and getattr(v, "is_int", False):
-                    return v
+                    return SI(z3.If(v.e, z3.IntVal(1), z3.IntVal(0)))
+                if isinstance(v, SI) or not isinstance(v, (SR, SC)):
+                    return v if isinstance(v, SI) else int(v)
+                if isinstance(v, SR) and v.d is None:
+                    e = z3.simplify(v.n)
+                    if z3.is_app_of(e, z3.Z3_OP_TO_REAL):
+                        return SI(e.arg(0))         # value produced by rounding / an integer carried as a real
                 raise NotEncodable("float -> integer conversion of a symbolic value")
             return [np.asarray(np.frompyfunc(ci, 1, 1)(x), dtype=object)]
         raise NotEncodable(f"convert_element_type to {new}")
@@ -650,6 +691,8 @@ class Interp:
         outs = eqn.primitive.bind(jnp.asarray(pos), **params)
         return [self._take(x, np.asarray(o)) for o in outs]
 
+    p_unstack = p_split
+
     # -- control flow ---------------------------------------------------------------
     def p_pjit(self, ins, params, eqn):
         closed = params.get("jaxpr") or params.get("call_jaxpr")
@@ -840,6 +883,8 @@ def _asobj(v):
 def _example(leaf):
     a = np.asarray(leaf) if not isinstance(leaf, np.ndarray) else leaf
     if a.dtype == object:
+        if a.size and all(isinstance(v, SI) for v in a.reshape(-1)):
+            return np.zeros(a.shape, dtype=np.int64)
         cplx = any(isinstance(v, SC) for v in a.reshape(-1))
         return np.zeros(a.shape, dtype=np.complex128 if cplx else np.float64)
     return a
@@ -850,8 +895,8 @@ def jcall(B, fn, *args, while_bound=4, interp=None):
 
     symbolic back end: trace to a jaxpr at the arguments' shapes and interpret it over the symbolic leaves;
     concrete back end (replay): call the real function on jnp arrays."""
-    leaves, treedef = jax.tree_util.tree_flatten(args, is_leaf=lambda x: isinstance(x, np.ndarray) or isinstance(x, (SR, SC)))
-    leaves = [np.asarray(l, dtype=object) if isinstance(l, (SR, SC)) else l for l in leaves]
+    leaves, treedef = jax.tree_util.tree_flatten(args, is_leaf=lambda x: isinstance(x, np.ndarray) or isinstance(x, (SR, SC, SI)))
+    leaves = [np.asarray(l, dtype=object) if isinstance(l, (SR, SC, SI)) else l for l in leaves]
     if B.mode != "sym":
         cargs = jax.tree_util.tree_unflatten(treedef, [jnp.asarray(np.asarray(l, dtype=np.complex128 if np.iscomplexobj(l) else None)) for l in leaves])
         out = fn(*cargs)
